@@ -130,6 +130,7 @@ type rbOcc struct {
 	file  int
 	depth int // function nesting depth of the occurrence
 	blk   int      // block nesting depth of the occurrence
+	slv   int      // block nesting depth relative to the innermost enclosing function body
 	ctx   []string // names declared by the statement in whose initialiser / bounds this occurrence sits
 	ctxKind int    // 1 local statement initialiser, 2 numeric-for bounds, 3 generic-for expression list, 4 right-hand side of an assignment to plain names
 	ctxSafe bool   // (ctxKind 1) the occurrence sits in the initialiser expression of the very name it spells, and that expression as a whole is a name, a call or a function: the shapes the position-based resolver recognises
@@ -148,6 +149,7 @@ type rbT struct {
 	ctx     []string
 	ctxKind int
 	ctxSafeName string
+	fnBase []int // block depth at which each enclosing function body starts
 	decls []rbDecl
 	occs  []rbOcc
 	stack []*rbScope
@@ -197,7 +199,15 @@ func (r *rbT) use(name string, loc lexer.Location, kind int) {
 			r.decls[d].writes++
 		}
 	}
-	r.occs = append(r.occs, rbOcc{name: name, loc: loc, kind: kind, decl: d, file: r.file, depth: r.depth, blk: len(r.stack), ctx: r.ctx, ctxKind: r.ctxKind, ctxSafe: r.ctxSafeName != "" && r.ctxSafeName == name})
+	r.occs = append(r.occs, rbOcc{name: name, loc: loc, kind: kind, decl: d, file: r.file, depth: r.depth, blk: len(r.stack), slv: r.slv(), ctx: r.ctx, ctxKind: r.ctxKind, ctxSafe: r.ctxSafeName != "" && r.ctxSafeName == name})
+}
+
+func (r *rbT) slv() int {
+	base := 1
+	if n := len(r.fnBase); n > 0 {
+		base = r.fnBase[n-1]
+	}
+	return len(r.stack) - base
 }
 
 func (o *rbOcc) inCtxOf(name string) bool {
@@ -233,6 +243,7 @@ func (r *rbT) funcBody(fd *ast.FuncDefExp) {
 	}
 	r.push()
 	r.depth++
+	r.fnBase = append(r.fnBase, len(r.stack))
 	for i, pn := range fd.ParList {
 		kind := rbParam
 		if i == 0 && fd.IsColon {
@@ -247,6 +258,7 @@ func (r *rbT) funcBody(fd *ast.FuncDefExp) {
 	if fd.Block != nil {
 		r.stats(fd.Block)
 	}
+	r.fnBase = r.fnBase[:len(r.fnBase)-1]
 	r.depth--
 	r.pop()
 }
@@ -486,6 +498,8 @@ var vpTemplates = []string{
 	/* 47 */ "local \x01, \x02 = 1, 2\n     local \x03 = t.f(1,\n\x01, function()\n return \x02\nend)\ng = \x03 + \x01\n",
 	// colon methods on receivers reached through two or more member steps: self is the implicit parameter
 	/* 48 */ "\x01 = { ui = { P = {} } }\nfunction \x01.ui.P:show(\x02)\n local s = self\n g = self.k\n return \x02, s\nend\nlocal \x03 = { n = { P = {} } }\nfunction \x03.n.P:m()\n return function() return self end\nend\n",
+	// a global first assigned inside a top-level block (a guard), later inside functions
+	/* 49 */ "if k then\n \x01 = 0\n \x02 = 1\nend\nfunction add(n)\n \x01 = n + 1\n do \x02 = n end\nend\nfunction reset() \x01 = 0 end\ng = \x01 + \x02\n",
 }
 
 // vpInstantiate fills the holes of template t with symbolic names; tag prefixes the variable names.
@@ -532,14 +546,21 @@ func vpIsHoleName(n string) bool {
 	return len(n) == 1
 }
 
-// globalMixedDepth: the assignments defining global `name` do not all sit at the same block depth.
+// globalMixedDepth: among the assignments defining global `name` in one file, a later one is shallower than
+// an earlier one in LuaHelper's order (function nesting first, then block nesting inside the function): the
+// later one then becomes the preferred definition and the earlier assignments are lost from its references
+// (known defect). Any other mix of depths is handled correctly.
 func (r *rbT) globalMixedDepth(name string) bool {
-	first := -1
-	for _, i := range r.globalDefs(name) {
-		if first < 0 {
-			first = r.occs[i].blk
-		} else if r.occs[i].blk != first {
-			return true
+	defs := r.globalDefs(name)
+	for a := range defs {
+		for b := a + 1; b < len(defs); b++ {
+			i, j := &r.occs[defs[a]], &r.occs[defs[b]]
+			if i.file != j.file {
+				continue
+			}
+			if j.depth < i.depth || (j.depth == i.depth && j.slv < i.slv) {
+				return true
+			}
 		}
 	}
 	return false
